@@ -1,6 +1,7 @@
 """C02 - exact partitioners attain the true optimum of their objective."""
 import random
 from runtime import harness as H
+from props import _ded as D
 from runtime import t3_part as T
 from runtime.common import CG_SWITCHES
 
@@ -49,4 +50,7 @@ def t3(rep, tier, seed):
 def run(rep, tier, seed):
     rep.level = "exploration"
     rep.assume("A1", "A4", "A6", "A8")
+    D.run_contracts(rep, "C02", D.exact(), tier)
+    D.run_contracts(rep, "C02", D.bounds(), tier, also=("C13",))
     t3(rep, tier, seed)
+    D.link_falsifier(rep)
